@@ -979,6 +979,219 @@ def meta_check(d, o, meta):
     return fails
 
 
+GRPC_CLASS = {5: "NF", 16: "UA", 7: "PD", 3: "IA", 14: "UV", 6: "AE"}
+V1_CLASS = {404: "NF", 401: "UA", 403: "PD", 400: "IA"}
+SDV_ERR_CLASS = {0: {"NF"}, 1: {"IA"}, 2: {"PD", "UA"}, 4: {"IA"}}
+SDV_FAIL_CLASS = {2: {"NF"}, 3: {"PD", "UA"}}
+CORE_UPD_CLASS = {1: "NF", 2: "IA", 3: "IA", 4: "IA", 5: "IA", 6: "IA", 7: "PD", 8: "UA"}
+CORE_READ_CLASS = {1: "NF", 2: "PD", 3: "UA"}
+CORE_ACT_CLASS = {1: "NF", 2: "IA", 3: "IA", 4: "IA", 5: "PD", 6: "UA", 7: "UV", 8: "AE"}
+CORE_REG_CLASS = {1: "IA", 2: "PD", 3: "UA"}
+
+
+class Ctx:
+    """what the cause oracle needs to know about the current state"""
+    def __init__(self, P, paths, meta, byname, ack, owners, down, ticked):
+        self.P, self.paths, self.meta, self.byname, self.ack = P, paths, meta, byname, ack
+        self.owners, self.down, self.ticked = owners, down, ticked
+
+    def expired(self, p):
+        return 0 <= p < len(self.P.scopes) and self.P.scopes[p][1] and self.ticked
+
+    def read_causes(self, p, i):
+        if i not in self.paths:
+            return {"NF"}
+        if self.expired(p):
+            return {"UA"}
+        c = self.P.can(p, "read", self.paths[i], self.ticked)
+        return set() if c else ({"PD"} if c is False else {"PD", "?"})
+
+    def value_causes(self, i, v, is_dp):
+        m = self.meta[i]
+        if is_dp and m["ctype"] != 2 and self.ack.get(i) is not None and ieee_value_eq(v, self.ack[i][0]):
+            return set()                      # a repeated value is dropped before validation
+        if is_dp and self.ack.get(i) is None:
+            return {"?"}
+        if v[0] == E.NA:
+            return {"IA"} if m.get("allowed") is not None else set()
+        d = V.in_domain(m["dtype"], m.get("min"), m.get("max"), m.get("allowed"), v, False)
+        d2 = V.in_domain(m["dtype"], m.get("min"), m.get("max"), m.get("allowed"), v, True)
+        if d is False:
+            return {"IA"}
+        if d is True and d2 is True:
+            return set()
+        return {"IA", "?"}
+
+    def update_causes(self, p, u):
+        i = u["id"]
+        if i not in self.paths:
+            return {"NF"}
+        out = set()
+        if u["flags"] & 8:
+            out.add("PD")
+        writes = bool(u["flags"] & 7)
+        if writes and self.expired(p):
+            out.add("UA")
+        if not self.expired(p):
+            if u["flags"] & 1 and self.P.can(p, "provide", self.paths[i], self.ticked) is not True:
+                out.add("PD")
+            if u["flags"] & 6 and self.P.can(p, "actuate", self.paths[i], self.ticked) is not True:
+                out.add("PD")
+        if u["flags"] & 1:
+            out |= self.value_causes(i, u["dp"], True)
+        if u["flags"] & 2:
+            out |= self.value_causes(i, u["target"], False)
+        return out
+
+    def actuate_causes(self, p, i, v):
+        if i not in self.paths:
+            return {"NF"}
+        out = set()
+        if self.expired(p):
+            out.add("UA")
+        else:
+            if self.P.can(p, "read", self.paths[i], self.ticked) is not True or \
+                    self.P.can(p, "actuate", self.paths[i], self.ticked) is not True:
+                out.add("PD")
+        if self.meta[i]["etype"] != 2:
+            out.add("IA")
+        out |= self.value_causes(i, v, False)
+        live = [x for x in self.owners if x[3] and i in x[1]]
+        if not live:
+            out.add("UV")
+        else:
+            h, ids, op_, _ = live[0]
+            if h in self.down:
+                out.add("UV")
+            if self.expired(op_):
+                out.add("UA")
+        return out
+
+    def signal_causes(self, l, i):
+        """causes of a v2 SignalID at token index i -> (causes, id or None, next)"""
+        k = l[i]
+        if k in (0, 1):
+            return {"IA"}, None, i + 1
+        if k == 2:
+            name, j = _str(l, i + 1)
+            if len(name.encode()) > 1000:
+                return {"IA", "NF"}, None, j
+            sid = self.byname.get(name)
+            return (set(), sid, j) if sid is not None else ({"NF"}, None, j)
+        sid = l[i + 1]
+        return (set(), sid, i + 2) if sid in self.paths else ({"NF"}, None, i + 2)
+
+
+def _judge(name, cls, causes, what):
+    if "?" in causes:
+        return []
+    if cls is None:
+        return ["C19-class: %s reports a status outside the documented classes for %s" % (name, what)]
+    if isinstance(cls, str):
+        cls = {cls}
+    if not (cls & causes):
+        return ["C19-class: %s reports %s for %s, applicable causes %s" % (name, sorted(cls), what, sorted(causes) or "none")]
+    return []
+
+
+def c19_check(d, o, ctx):
+    """class of a reported failure must be among the applicable causes; no cause => served"""
+    fails = []
+    name = d["name"]
+    first = o[0] if o else []
+    try:
+        if name == "GET" and not d.get("value_only"):
+            if first[0] == 1:
+                fails += _judge(name, CORE_READ_CLASS.get(first[1]), ctx.read_causes(d["p"], d["id"]), "id %d" % d["id"])
+            elif ctx.read_causes(d["p"], d["id"]) - {"?"}:
+                pass
+        elif name == "UPDATE" and "ups" in d and "raw" not in d:
+            errs = {}
+            for j in range(first[0]):
+                errs.setdefault(first[1 + 2 * j], []).append(first[2 + 2 * j])
+            for u in d["ups"]:
+                cs = ctx.update_causes(d["p"], u)
+                codes = errs.get(u["id"], [])
+                n_el = sum(1 for x in d["ups"] if x["id"] == u["id"])
+                if n_el > 1:
+                    continue
+                if codes:
+                    fails += _judge(name, CORE_UPD_CLASS.get(codes[0]), cs, "element id %d" % u["id"])
+                elif cs and "?" not in cs:
+                    fails.append("C19-served: UPDATE element id %d accepted although %s applies" % (u["id"], sorted(cs)))
+        elif name == "ACTUATE" and "raw" not in d:
+            cs = ctx.actuate_causes(d["p"], d["id"], d["value"])
+            if first[0] == 1:
+                fails += _judge(name, CORE_ACT_CLASS.get(first[1]), cs, "id %d" % d["id"])
+            elif cs and "?" not in cs:
+                fails.append("C19-served: ACTUATE id %d accepted although %s applies" % (d["id"], sorted(cs)))
+        elif name == "BATCH" and "raw" not in d:
+            cs = set()
+            for (i, v) in d["changes"]:
+                cs |= ctx.actuate_causes(d["p"], i, v)
+            if first[0] == 1:
+                fails += _judge(name, CORE_ACT_CLASS.get(first[1]), cs, "batch")
+            elif cs and "?" not in cs:
+                fails.append("C19-served: BATCH accepted although %s applies" % sorted(cs))
+        elif "raw" in d:
+            l = d["raw"]
+            op, p = l[0], l[1]
+            if op == V2GET:
+                cs, sid, _ = ctx.signal_causes(l, 2)
+                if sid is not None:
+                    cs |= ctx.read_causes(p, sid)
+                if len(first) == 1 and first[0] != 0:
+                    fails += _judge(name, GRPC_CLASS.get(first[0]), cs, show_api(l))
+                elif first[0] == 0 and cs and "?" not in cs:
+                    fails.append("C19-served: V2GET served although %s applies" % sorted(cs))
+            elif op == V2PUB:
+                cs, sid, j = ctx.signal_causes(l, 2)
+                v, _ = _read_oov(l, j)
+                if v == "absent":
+                    cs.add("IA")
+                elif sid is not None:
+                    cs |= ctx.update_causes(p, {"id": sid, "flags": 1, "dp": v})
+                if first != [0]:
+                    fails += _judge(name, GRPC_CLASS.get(first[0]), cs, show_api(l))
+                elif cs and "?" not in cs:
+                    fails.append("C19-served: V2PUB served although %s applies" % sorted(cs))
+            elif op == V2ACT:
+                k = l[2]
+                cs, sid, j = ctx.signal_causes(l, 2)
+                if k == 3:           # by id: existence is judged by the broker
+                    cs, sid = set(), l[3]
+                v, _ = _read_oov(l, j)
+                if v == "absent":
+                    cs.add("IA")
+                elif sid is not None:
+                    cs |= ctx.actuate_causes(p, sid, v)
+                if first != [0]:
+                    fails += _judge(name, GRPC_CLASS.get(first[0]), cs, show_api(l))
+                elif cs and "?" not in cs:
+                    fails.append("C19-served: V2ACT served although %s applies" % sorted(cs))
+            elif op == V1GET and len(first) == 2 and first[0] != 0:
+                # single request: 400 bad pattern / too long, 404 nothing matched, 401 / 403 permission
+                cls = V1_CLASS.get(first[0])
+                if cls is None:
+                    fails.append("C19-class: V1GET reports code %d" % first[0])
+                elif cls in ("PD", "UA"):
+                    exp = ctx.expired(p)
+                    if (cls == "UA") != exp:
+                        fails.append("C19-class: V1GET reports %d for a token that is %s" % (first[0], "expired" if exp else "not expired"))
+            elif op in (V1SET, SDVSET, SDVUPD) and first and first[0] == 0 and len(first) > 1:
+                tbl = V1_CLASS if op == V1SET else None
+                for j in range(first[1]):
+                    k, c = first[2 + 2 * j], first[3 + 2 * j]
+                    if tbl is not None:
+                        if tbl.get(c) is None:
+                            fails.append("C19-class: %s reports code %d" % (name, c))
+                    elif c not in SDV_ERR_CLASS:
+                        fails.append("C19-class: %s reports DatapointError %d" % (name, c))
+    except (IndexError, KeyError, TypeError):
+        pass
+    return fails
+
+
 def monitor(lines, out, props):
     """property monitors over an implementation trace; `props` selects the clauses to evaluate.
     Returns a list of 'clause: text' strings."""
@@ -1010,6 +1223,8 @@ def monitor(lines, out, props):
         continue
       if "raw" in d0:
         fails += meta_check(d0, o0, meta)
+      if o0 and o0[0] not in ([-1], [-66]) and d0["name"] not in ("DUMP", "RECV", "PERM"):
+        fails += c19_check(d0, o0, Ctx(P, paths, meta, byname, ack, owners, _down, ticked))
       for (d, o) in normalize(d0, o0, byname, meta):
           name = d["name"]
           if name == "RESYNC":
@@ -1167,7 +1382,8 @@ def monitor(lines, out, props):
                   new.append((h, ids, p, alive and not gone))
               owners = new
           elif name == "PROVDOWN":
-              _down.add(d["h"])
+              if any(x[0] == d["h"] for x in owners):
+                  _down.add(d["h"])
           elif name == "DUMP":
               ents, provs = dec_dump(o)
               # C01: stored state is exactly the fold of acknowledgements
